@@ -147,6 +147,8 @@ class C01(WrapHarness):
                         ind='si', imax=1))
         out.append(dict(base, feat='nd', gen='symall', n=3 if q else 4, fn='wrap'))
         out += std_tmpl_spaces(base, q, fn='wrap')
+        out += atmpl_spaces(base, ['short', 'wide'] if q else ['short', 'wide', 'sentence', 'ansi', 'hyphens'],
+                            ALPHA_U[:6] if q else ALPHA_U[:10], fn='wrap')
         if not q:
             out += tmpl_spaces(base, ['sentence', 'paras', 'crlf'], fn='fill')
             out += tmpl_spaces(dict(base, split='C3'), ['sentence', 'hyphens'], fn='wrap')
